@@ -300,7 +300,34 @@ def concat_split(ctx, n_cases):
         x = [nap.Tsd(t, np.arange(n) * 2.0), nap.TsdFrame(t, np.arange(n * 2).reshape(n, 2) * 1.0, columns=["p", "q"]),
              nap.TsdTensor(t, np.arange(n * 4).reshape(n, 2, 2) * 1.0)][cls]
         cuts = sorted(rng.sample(range(0, n + 1), rng.randint(1, min(3, n))))
-        for fname, f, arg in (("split", np.split, cuts), ("array_split", np.array_split, rng.randint(1, n)), ("array_split(cuts)", np.array_split, cuts)):
+        # split points as NumPy accepts them: also lists that step back ([5, 2, 6]: an empty piece, then rows 2..5 AGAIN) and "sorted" lists mixing
+        # negative and positive entries ([-6, 1, 5]): every piece carries the timestamps of ITS rows
+        back = [rng.randint(0, n) for _ in range(rng.randint(2, 3))]
+        mixed = sorted([-rng.randint(1, n), rng.randint(0, n), rng.randint(0, n)])
+        for fname, f, arg in (("split", np.split, cuts), ("array_split", np.array_split, rng.randint(1, n)), ("array_split(cuts)", np.array_split, cuts),
+                              ("split(stepping back)", np.split, back), ("array_split(stepping back)", np.array_split, np.array(back)),
+                              ("split(negative and positive)", np.split, mixed), ("vsplit(stepping back)", np.vsplit, back)):
+            if fname.startswith("vsplit") and cls == 0:
+                continue
+            if "back" in fname or "negative" in fname:
+                inp = dict(level="split", func=fname, cls=["Tsd", "TsdFrame", "TsdTensor"][cls], n=n, arg=[int(v) for v in arg])
+                ctx.case(("sp", fname, cls, n, repr(list(arg))))
+                try:
+                    pieces = f(x, arg)
+                except Exception as e:
+                    ctx.fail("oracle", "%s raised %r" % (fname, e), inp); continue
+                refs = f(x.values, arg); reft = np.split(x.index.values, arg)
+                for p_, r_, t_ in zip(pieces, refs, reft):
+                    if not hasattr(p_, "index"):
+                        if len(r_):
+                            ctx.fail("oracle", "%s: a non-empty piece came back without timestamps" % fname, inp, impl=type(p_).__name__); break
+                        continue
+                    if not same(p_.values, r_) or ns_arr(p_.index.values) != ns_arr(t_):
+                        ctx.fail("oracle", "%s: a piece does not carry the timestamps of its own rows" % fname, inp,
+                                 impl=ns_arr(p_.index.values), expected=ns_arr(t_)); break
+                if len(pieces) != len(refs):
+                    ctx.fail("oracle", "%s: number of pieces" % fname, inp, impl=len(pieces), expected=len(refs))
+                continue
             inp = dict(level="split", func=fname, cls=["Tsd", "TsdFrame", "TsdTensor"][cls], n=n, arg=arg)
             ctx.case(("sp", fname, cls, n, repr(arg)))
             try:
